@@ -59,6 +59,16 @@ CLAIMS = {
             "file requested is <trusted version + 1>.root.json; all later roles are verified against "
             "load_root's result. Structural; transport behaviour not decided.",
             "DESIGN.md §4 C02"),
+    "C08": ("who-may-write query (file-system effect table over resolved callees) + MIR dominance / "
+            "must-pass-through + value-origin + file-name template analysis of Repository::save_target, "
+            "clean_name, TargetName::new",
+            "Decides on every path of save_target: the only file-system effects are mkdir, temp file in the "
+            "destination's directory, writes to it, and persist; persist only after the end of the "
+            "verified read_target stream and never after an Err item; all effects dominated by the "
+            "containment test against the canonicalised outdir; file name only from "
+            "TargetName::resolved; clean_name's refusals dominate Ok and TargetName is built only via "
+            "new(). Normalisation arithmetic and symlinks inside outdir are not decided.",
+            "DESIGN.md §4 C08"),
 }
 
 NOT_YET = {}
